@@ -55,9 +55,12 @@ structure TxnM where
   committedKeys : List Bytes := []
   ended : Bool := false                              -- owner's Commit/Rollback returned
   lastAdvise : Nat := 0
+  beatsAfterEnd : Nat := 0                           -- heartbeats seen after the owner's Commit/Rollback returned
   buffer : List BufEntry := []
   statusAnswers : List (Nat × Bool) := []            -- (commitTS, rolledBack) answers of CheckTxnStatus on its primary
   ttlSeen : Option Nat := none                       -- smallest ttl of a lock of this txn reported in a KeyIsLocked error
+  secMinCommits : List Nat := []                     -- min_commit_ts of async locks reported by CheckSecondaryLocks / by the primary's status
+  secOutcomes : List Nat := []                       -- commit ts reported by CheckSecondaryLocks when a lock was missing (0 = rolled back)
   relaxLocks : Bool := false                         -- aggressive locking was used: lock-only mutations are not predicted (rule 9)
   deriving Repr, Inhabited
 
@@ -94,6 +97,8 @@ inductive Ev
   | resolve (client : String) (fate : Fate) (startTS commitTS : Nat) (infos : List (Nat × Nat))
   | heartbeat (client : String) (fate : Fate) (primary : Bytes) (startTS advise : Nat)
   | lockSeen (client : String) (lockTS ttl : Nat)            -- a KeyIsLocked error delivered to `client`
+  | secAnswer (client : String) (startTS : Nat) (minCommits : List Nat) (missing : Bool) (commitTS : Nat)
+      -- answer of CheckSecondaryLocks, or (missing = false) the async primary's min_commit_ts from CheckTxnStatus
   | relaxLocks (client : String) (startTS : Nat)            -- aggressive locking call seen for this transaction
   deriving Repr
 
@@ -123,7 +128,12 @@ def checksOf (m : MState) : Ev → List (Bool × String)
     let t := m.get startTS client
     [ (t.primary.isNone || t.primary == some primary, "rule8 prewrites of one commit name different primaries"),
       (!tryOnePC || t.attemptedKeys.all (fun k => muts.any (·.1 == k)), "rule8 try_one_pc with more than one prewrite request"),
-      (minReq == 0 || minReq > startTS, "rule7 min_commit_ts not above start_ts") ]
+      (minReq == 0 || minReq > startTS, "rule7 min_commit_ts not above start_ts"),
+      -- rule 8: an async-commit primary lists exactly all other locked keys (when the buffered writes are known)
+      (!(_async && muts.any (·.1 == primary)) || t.buffer.isEmpty ||
+        (let others := ((expectedMuts t).filter (fun x => x.2.1 != .checkNotExists && x.1 != primary)).map (·.1)
+         others.all (fun k => _secondaries.contains k) && _secondaries.all (fun k => others.contains k)),
+        "rule8 async-commit primary does not list exactly the other locked keys as secondaries") ]
   | .commit client _fate startTS commitTS keys _ok _definiteErr =>
     let t := m.get startTS client
     let prewrittenKeys := (t.prewritten.filter (fun x => x.2.1 != .checkNotExists)).map (·.1)
@@ -153,15 +163,18 @@ def checksOf (m : MState) : Ev → List (Bool × String)
     let one (s c : Nat) : Bool :=
       let t := m.get s client
       if t.client == client && (t.primaryCommitted == some c && c > 0) then true
-      else if c > 0 then t.statusAnswers.any fun a => a.1 == c
-      else t.statusAnswers.any fun a => a.2
+      else if c > 0 then
+        (t.statusAnswers.any fun a => a.1 == c) || t.secOutcomes.contains c ||
+          -- async commit recovery with every lock present: commit ts = the largest min_commit_ts reported
+          (!t.secMinCommits.isEmpty && !t.secOutcomes.contains 0 && c == t.secMinCommits.foldl max 0)
+      else (t.statusAnswers.any fun a => a.2) || t.secOutcomes.contains 0
     [ (if infos.isEmpty then one startTS commitTS else infos.all fun (s, c) => one s c,
         "rule4 resolve with an outcome the store never reported for that transaction") ]
   | .heartbeat client _fate primary startTS advise =>
     let t := m.get startTS client
     [ (t.primary.isNone || t.primary == some primary, "rule6 heartbeat does not name the primary"),
       (advise ≥ t.lastAdvise, "rule6 advise_ttl decreased"),
-      (!t.ended, "rule6 heartbeat after the transaction ended") ]
+      (!t.ended, s!"rule6 heartbeat after the transaction ended (#{t.beatsAfterEnd + 1})") ]
   | _ => []
 
 /-- the state after an accepted event -/
@@ -186,6 +199,10 @@ def applyEv (m : MState) : Ev → MState
     let t := m.get lockTS client
     m.upd { t with ttlSeen := some (match t.ttlSeen with | some x => min x ttl | none => ttl) }
   | .relaxLocks client startTS => m.upd { (m.get startTS client) with relaxLocks := true }
+  | .secAnswer client startTS minCommits missing commitTS =>
+    let t := m.get startTS client
+    m.upd { t with secMinCommits := minCommits ++ t.secMinCommits,
+                   secOutcomes := if missing then commitTS :: t.secOutcomes else t.secOutcomes }
   | .prewrite client fate startTS primary muts _minReq ok minResp _tryOnePC _async _secondaries =>
     let t := m.get startTS client
     let acked := fate == .answered && ok
@@ -208,7 +225,9 @@ def applyEv (m : MState) : Ev → MState
     let t := m.get lockTS client
     if answered && !isErr then m.upd { t with statusAnswers := (commitTS, ttl == 0 && commitTS == 0) :: t.statusAnswers } else m
   | .resolve _ _ _ _ _ => m
-  | .heartbeat client _fate _primary startTS advise => m.upd { (m.get startTS client) with lastAdvise := advise }
+  | .heartbeat client _fate _primary startTS advise =>
+    let t := m.get startTS client
+    m.upd { t with lastAdvise := advise, beatsAfterEnd := if t.ended then t.beatsAfterEnd + 1 else t.beatsAfterEnd }
 
 /-- the monitor: an event is accepted iff all its checks hold; the first failing rule is reported -/
 def Monitor.step (m : MState) (ev : Ev) : Except String MState :=
